@@ -1631,6 +1631,17 @@ impl Analyzable for Program {
             }
         }
 
+        // the interface and the lowered IR of a transaction are both looked up by its name
+        let mut tx_names = std::collections::HashSet::new();
+
+        for tx in self.txs.iter() {
+            if !tx_names.insert(tx.name.value.clone()) {
+                duplicates
+                    .errors
+                    .push(Error::DuplicateDefinition(tx.name.value.clone()));
+            }
+        }
+
         for party in self.parties.iter() {
             scope.track_party_def(party);
         }
